@@ -180,8 +180,15 @@ class RegionInit(Contract):
     def fresh_result(s, E, st):
         o = st.self
         n = len(st.p1)
-        o.attrs['_pmin'] = Vec([E.fresh('pmin', 'float', True) for _ in range(n)])
-        o.attrs['_pmax'] = Vec([E.fresh('pmax', 'float', True) for _ in range(n)])
+        # definitional results (pmin = min(p1, p2) simplified against the path condition) instead of fresh symbols:
+        # equivalent to fresh + the assumed post clauses, but keeps exact-lattice corners syntactically visible to callers
+        if st.ordered:
+            lo, hi = list(st.p1), list(st.p2)
+        else:
+            lo = [E.minv(a, b) for a, b in zip(st.p1, st.p2)]
+            hi = [E.maxv(a, b) for a, b in zip(st.p1, st.p2)]
+        o.attrs['_pmin'] = Vec([E.npscalar(E.to_float(x)) for x in lo])
+        o.attrs['_pmax'] = Vec([E.npscalar(E.to_float(x)) for x in hi])
         o.attrs['_dims'] = s._dims(st, n)
         o.attrs['_units'] = s._units(st, n)
         o.attrs['_tolerance_factor'] = st.tf
